@@ -2349,15 +2349,17 @@ fn direct(op: &Op, router: &QueryRouter) -> Result<Direct, String> {
             let k = limit.unwrap_or(10) as usize;
             let top = router.find_neighbors_by_similarity(key, &q, k).map_err(es)?;
             let full = router.find_neighbors_by_similarity(key, &q, 100_000).map_err(es)?;
-            let cv = |v: Vec<_>| v.into_iter().map(|i: query_router::UnifiedItem| (i.id, i.score.unwrap_or(0.0))).collect::<Vec<(String, f32)>>();
-            Ok(Direct::Similar(cv(top), cv(full)))
+            let top: Vec<(String, f32)> = top.into_iter().map(|i| (i.id, i.score.unwrap_or(0.0))).collect();
+            let full: Vec<(String, f32)> = full.into_iter().map(|i| (i.id, i.score.unwrap_or(0.0))).collect();
+            Ok(Direct::Similar(top, full))
         }
         Op::SimilarConnected { key, to, limit } => {
             let k = limit.unwrap_or(10) as usize;
             let top = router.find_similar_connected(key, to, k).map_err(es)?;
             let full = router.find_similar_connected(key, to, 100_000).map_err(es)?;
-            let cv = |v: Vec<_>| v.into_iter().map(|i: query_router::UnifiedItem| (i.id, i.score.unwrap_or(0.0))).collect::<Vec<(String, f32)>>();
-            Ok(Direct::Similar(cv(top), cv(full)))
+            let top: Vec<(String, f32)> = top.into_iter().map(|i| (i.id, i.score.unwrap_or(0.0))).collect();
+            let full: Vec<(String, f32)> = full.into_iter().map(|i| (i.id, i.score.unwrap_or(0.0))).collect();
+            Ok(Direct::Similar(top, full))
         }
         Op::CreateTable { name, cols } => {
             let cs: Vec<Column> = cols
